@@ -430,6 +430,16 @@ def degenerate():
         '/**\n * foo_bar:\n * @p: x\n * (late (\n */', '/**\n * foo_bar:\n *\n * Returns:\n *   (\n */',
         '/**\n * foo_bar:\n *\n * Returns: x\n *   (late)\n */', '/**\n' + ' * foo_bar: (' + 'a' * 300 + '\n */',
     ]
+    # every deprecated tag-style annotation, with and without a value, on a block whose identifier line has / has
+    # no annotations: whatever is diagnosed (deprecation, option count) must carry one position in the block
+    for tag, val in (('Attributes', '(a b)'), ('Get value func', 'f'), ('Ref func', 'f'), ('Rename to', 'other'),
+                     ('Set value func', 'f'), ('Transfer', 'none'), ('Type', 'utf8'), ('Unref func', 'f'),
+                     ('Value', '5'), ('Virtual', 'slot')):
+        for name in (tag, tag.lower()):
+            for ident in ('foo_bar:', 'foo_bar: (skip)'):
+                for v in (' ' + val, ''):
+                    D.append('/**\n * %s\n * @p: a value\n *\n * Does things.\n *\n * %s:%s\n */' % (ident, name, v))
+                    D.append('/**\n * %s\n * %s:%s\n */' % (ident, name, v))
     # a character that str.splitlines() would break at, but that is not a comment line ending, stands on a line
     # BEFORE the diagnosed one: line number and quoted line of the later diagnostics must not shift
     for c in B.ODD_SEPARATORS:
